@@ -270,6 +270,7 @@ def mon_flow(ctx, conn):
     closed = set()
     mfs = 16384
     owed = {}        # sid -> octets of the finished handler's response body not yet seen in DATA
+    started = set()  # response HEADERS seen
     torn = False
     for op, out in conn.steps:
         f = op.split(" ")
@@ -320,12 +321,20 @@ def mon_flow(ctx, conn):
                     closed.add(sid)
             elif name == "RST":
                 closed.add(int(args.split(",")[0]))
+            elif name == "H":
+                started.add(int(args.split(",")[0]))
+                if ",es=1," in "," + args + ",":
+                    closed.add(int(args.split(",")[0]))
             elif name in ("GA", "returned"):
                 torn = True
         # progress (the property's second sentence), at quiescence: a finished response that still owes octets
         # is blocked by one of the two windows
         if not torn and f[2] in ("frame", "bytes", "done", "settle"):
             for sid, n in owed.items():
+                if n == 0 and sid not in closed and sid in started:
+                    # every octet is out: the frame that ends the stream needs no window
+                    viol(ctx, conn, "end-stream-withheld", dict(sid=sid, stream_allow=allow.get(sid), conn_allow=allow_conn, after=op[:80]))
+                    closed.add(sid)
                 if n > 0 and sid not in closed and allow.get(sid, 0) > 0 and allow_conn > 0:
                     viol(ctx, conn, "sendable-left-unsent", dict(sid=sid, owed=n, stream_allow=allow.get(sid), conn_allow=allow_conn, after=op[:80]))
                     closed.add(sid)
